@@ -796,10 +796,17 @@ func (q *checker) unify(branches [][]*a.Expr) error {
 		return fmt.Errorf("check: too many if-else branches")
 	}
 
+	// m maps a fact to the number of branches that hold it. A branch can hold
+	// the same fact more than once (e.g. when an I/O method advance rewrites
+	// "x.length() > 7" and "x.length() >= 8" to "x.length() >= 4").
 	m := map[string]int{}
 	for _, b := range branches {
+		seen := map[string]bool{}
 		for _, f := range b {
-			m[f.Str(q.tm)]++
+			if s := f.Str(q.tm); !seen[s] {
+				seen[s] = true
+				m[s]++
+			}
 		}
 	}
 
